@@ -105,6 +105,35 @@ func safeExec(c *Ctx, p *Prop, cs *Case) {
 }
 
 func runIsolated(c *Ctx, p *Prop, cs *Case) {
+	to := p.Timeout
+	if to == 0 {
+		to = 60 * time.Second
+	}
+	got, timedOut, tail := runIsolatedOnce(c, p, cs, to)
+	if got == nil && timedOut {
+		// A stalled machine (many checks at once) makes every worker's case time out at the same moment; a case that
+		// really hangs does so again. One more try, alone in its process as before, with twice the patience.
+		got, timedOut, tail = runIsolatedOnce(c, p, cs, 2*to)
+	}
+	if got != nil {
+		id := cs.ID
+		*cs = *got
+		cs.ID = id
+		return
+	}
+	what := "crash"
+	if timedOut {
+		what = "hang"
+	}
+	cs.Impl = nil
+	for range cs.Ops {
+		cs.Impl = append(cs.Impl, what)
+	}
+	cs.Outcome = what
+	cs.Fail(what, tail)
+}
+
+func runIsolatedOnce(c *Ctx, p *Prop, cs *Case, to time.Duration) (*Case, bool, string) {
 	dir, err := ioutil.TempDir(c.Workdir, "iso")
 	if err != nil {
 		panic(err)
@@ -113,10 +142,6 @@ func runIsolated(c *Ctx, p *Prop, cs *Case) {
 	in, out := dir+"/in.json", dir+"/out.jsonl"
 	b, _ := json.Marshal(cs)
 	ioutil.WriteFile(in, b, 0600)
-	to := p.Timeout
-	if to == 0 {
-		to = 60 * time.Second
-	}
 	cmd := exec.Command(os.Args[0], p.Name, "replay="+in, "out="+out,
 		fmt.Sprintf("seed=%d", c.Seed), "tier="+c.Tier, "workdir="+dir)
 	cmd.Env = append(os.Environ(), "ONETHARNESS_CHILD=1")
@@ -142,10 +167,7 @@ func runIsolated(c *Ctx, p *Prop, cs *Case) {
 		line := bytes.SplitN(ob, []byte("\n"), 2)[0]
 		var got Case
 		if json.Unmarshal(line, &got) == nil && got.Oracle != "" {
-			id := cs.ID
-			*cs = got
-			cs.ID = id
-			return
+			return &got, false, ""
 		}
 	}
 	tail := stderr.String()
@@ -157,14 +179,5 @@ func runIsolated(c *Ctx, p *Prop, cs *Case) {
 	if len(tail) > 600 {
 		tail = tail[:600]
 	}
-	what := "crash"
-	if timedOut {
-		what = "hang"
-	}
-	cs.Impl = nil
-	for range cs.Ops {
-		cs.Impl = append(cs.Impl, what)
-	}
-	cs.Outcome = what
-	cs.Fail(what, tail)
+	return nil, timedOut, tail
 }
